@@ -97,6 +97,8 @@ func ruleRPM(p *Prog, r *Report) {
 		var problems []string
 		if why != "" {
 			problems = append(problems, why)
+		} else if cs := cursorStart(outer); cs != "" {
+			problems = append(problems, cs)
 		} else {
 			bySide := map[int][]scanSegment{}
 			for _, s := range segs {
@@ -217,7 +219,7 @@ func ruleRPM(p *Prog, r *Report) {
 		case oof != "":
 			r.Und("R-RPM-SEP", key, p.FnPos(sepFn), oof)
 		case len(missing) > 0:
-			r.Bad("R-RPM-SEP", key, p.FnPos(sepFn), fmt.Sprintf("%s does not treat %s as a separator: it becomes part of an alphabetic segment (1.0_1 vs 1.0.1 compare as segment \"_\" against nothing; rpmvercmp: equal)", sepFn.Name(), strings.Join(missing, ", ")))
+			r.Bad("R-RPM-SEP", key+" :: not separators: "+strings.Join(missing, " "), p.FnPos(sepFn), fmt.Sprintf("%s does not treat %s as a separator: it becomes part of an alphabetic segment (1.0_1 vs 1.0.1 compare as segment \"_\" against nothing; rpmvercmp: equal)", sepFn.Name(), strings.Join(missing, ", ")))
 		default:
 			r.Ok("R-RPM-SEP", key, p.FnPos(sepFn), fmt.Sprintf("%s holds for '.', '_' and '+'", sepFn.Name()))
 		}
@@ -243,7 +245,7 @@ func ruleRPM(p *Prog, r *Report) {
 		}
 		switch {
 		case len(plain) > 0:
-			r.Bad("R-RPM-SEP", key2, p.FnPos(sepFn), fmt.Sprintf("%s treats %s as a plain separator: it is skipped like '.', so 1.0^git1 compares as 1.0.git1 (newer than 1.0.1), where rpmvercmp sorts a caret after the end of the string but before any further segment", sepFn.Name(), strings.Join(plain, ", ")))
+			r.Bad("R-RPM-SEP", key2+" :: plain separators: "+strings.Join(plain, " "), p.FnPos(sepFn), fmt.Sprintf("%s treats %s as a plain separator: it is skipped like '.', so 1.0^git1 compares as 1.0.git1 (newer than 1.0.1), where rpmvercmp sorts a caret after the end of the string but before any further segment", sepFn.Name(), strings.Join(plain, ", ")))
 		case !caretTest:
 			r.Bad("R-RPM-SEP", key2, p.FnPos(scan), "no code reachable from the scanner tests for '^': the caret rule cannot be implemented")
 		default:
